@@ -404,4 +404,46 @@ theorem parse_forms (c : Char) (w : List Char) (hc : KeyChar c) (hw : KeyWord w)
       rw [if_neg (Ne.symm hne), if_neg (by omega), if_neg (by omega), if_neg (by omega), if_pos hl1]
       simp [hmk]
 
+/-! ### the key of a command-line name (`wordKey`, the repaired `Handler::evalSingleArgument`) -/
+
+/-- a name that is not exactly one character long goes through the constructor unchanged -/
+theorem wordKey_of_ne_one (name : List Char) (h : name.length ≠ 1) : wordKey name = Key.parse name := by
+  unfold wordKey; rw [if_neg h]
+
+theorem wordKey_of_two_le (name : List Char) (h : 2 ≤ name.length) : wordKey name = Key.parse name :=
+  wordKey_of_ne_one name (by omega)
+
+/-- a name of one character gets its two dashes back -/
+theorem wordKey_one (c : Char) : wordKey [c] = Key.parse ['-', '-', c] := by
+  unfold wordKey; rw [if_pos (by rfl : [c].length = 1)]
+
+/-- in every case the key is what the constructor makes of *some* specification -/
+theorem wordKey_eq_parse (name : List Char) : ∃ s, wordKey name = Key.parse s := ⟨_, rfl⟩
+
+theorem wordKey_total (name : List Char) :
+    (∃ k, wordKey name = .ok k) ∨ wordKey name = .throw .invalid_argument := parse_total _
+
+theorem wordKey_wellformed (name : List Char) (k : Key) (h : wordKey name = .ok k) : k.WellFormed :=
+  parse_wellformed _ k h
+
+/-- every key word `w` — of one character or more — gives the long key `w` -/
+theorem wordKey_word (w : List Char) (hw : KeyWord w) : wordKey w = .ok ⟨none, w⟩ := by
+  have hf := parse_forms 'a' w (by decide) hw
+  by_cases h1 : w.length = 1
+  · unfold wordKey; rw [if_pos h1]
+    exact hf.2.2.1
+  · rw [wordKey_of_ne_one w h1]
+    have hlen : 2 ≤ w.length := by
+      have : w.length ≠ 0 := fun h => hw.1 (List.eq_nil_of_length_eq_zero h)
+      omega
+    have := hf.2.1 hlen [] (by simp)
+    rw [List.nil_append] at this
+    exact this
+
+/-- the pinned code looked a one-character name up as the SHORT key -/
+theorem wordKeyHead_one (c : Char) (hc : KeyChar c) : wordKeyHead [c] = .ok ⟨some c, []⟩ := by
+  have := (parse_forms c ['a', 'a'] hc (by decide)).1 [] (by simp)
+  rw [List.nil_append] at this
+  exact this
+
 end CelmaVerif.Keys
